@@ -27,6 +27,10 @@
 #include <fcppt/math/box/intersects.hpp>
 #include <fcppt/math/box/null.hpp>
 #include <fcppt/math/box/object.hpp>
+#include <fcppt/math/box/output.hpp>
+#include <fcppt/math/box/structure_cast.hpp>
+#include <fcppt/math/interval_distance.hpp>
+#include <fcppt/cast/size_fun.hpp>
 #include <fcppt/math/box/shrink.hpp>
 #include <fcppt/math/box/stretch_absolute.hpp>
 #include <fcppt/math/dim/init.hpp>
@@ -36,6 +40,7 @@
 #include <fcppt/tuple/make.hpp>
 
 #include <array>
+#include <sstream>
 #include <string>
 #include <type_traits>
 #include <vector>
@@ -220,7 +225,40 @@ void op_box1(boxin<N> const &a, std::vector<tup<N>> const &pts, std::vector<tup<
     }
   }
   out += ",\"shv\":" + shv.str() + ",\"shp\":" + shp.str() + ",\"shm\":" + shm.str() + ",\"stv\":" + stv.str() + ",\"stp\":" + stp.str() + ",\"stm\":" + stm.str();
+  // extension: structure_cast to a box over long long (every value is representable) and operator<<
+  {
+    using L = box_t<long long, N>;
+    L const sc = fcppt::math::box::structure_cast<L, fcppt::cast::size_fun>(b);
+    std::string scs = "[", scm = "[";
+    for (std::size_t i = 0; i < N; ++i)
+    {
+      if (i) { scs += ','; scm += ','; }
+      scs += std::to_string(std::is_unsigned_v<T> ? sat(static_cast<unsigned long long>(sc.pos().get_unsafe(i))) : sc.pos().get_unsafe(i));
+      scm += std::to_string(std::is_unsigned_v<T> ? sat(static_cast<unsigned long long>(sc.max().get_unsafe(i))) : sc.max().get_unsafe(i));
+    }
+    std::ostringstream os;
+    os << b;
+    out += ",\"scp\":" + scs + "],\"scm\":" + scm + "],\"text\":" + vj::cps(os.str());
+  }
   vj::end_call(out + "}");
+}
+
+// ------------------------------------------------------------------ extension: interval_distance itself
+// every pair of intervals with ends in lo..hi, both argument orders
+void op_interval_distance(ll a1, ll a2, ll lo, ll hi)
+{
+  vj::begin_call(vj::J().kv("f", "interval_distance").kv("T", "i32").kv("N", 1).kv("a1", a1).kv("a2", a2).kv("lo", lo).kv("hi", hi).s);
+  jlist bs, d12, d21;
+  for (ll b1 = lo; b1 <= hi; ++b1)
+    for (ll b2 = lo; b2 <= hi; ++b2)
+    {
+      bs.add("[" + std::to_string(b1) + "," + std::to_string(b2) + "]");
+      auto const ia = fcppt::tuple::make(static_cast<int>(a1), static_cast<int>(a2));
+      auto const ib = fcppt::tuple::make(static_cast<int>(b1), static_cast<int>(b2));
+      d12.add(std::to_string(fcppt::math::interval_distance(ia, ib)));
+      d21.add(std::to_string(fcppt::math::interval_distance(ib, ia)));
+    }
+  vj::end_call(",\"bs\":" + bs.str() + ",\"d12\":" + d12.str() + ",\"d21\":" + d21.str() + "}");
 }
 
 // ------------------------------------------------------------------ pairs
@@ -402,8 +440,14 @@ int main(int argc, char **argv)
     exhaustive<unsigned, 1>(0, 6);
     exhaustive<int, 2>(thorough ? -3 : -2, thorough ? 3 : 2);
     exhaustive<unsigned, 2>(0, 4);
+    // extension: 3-D exhaustive (thorough: corners in [-1,1], 729 boxes, 531 441 pairs; quick: [0,1])
+    exhaustive<int, 3>(thorough ? -1 : 0, 1);
+    exhaustive<unsigned, 3>(0, 1);
     random3<int>(rng, thorough ? 3000 : 300, -3, 3);
     random3<unsigned>(rng, thorough ? 1000 : 100, 0, 6);
+    // observed only (outside the statement of C13): driven last
+    for (ll a1 = -3; a1 <= 3; ++a1)
+      for (ll a2 = -3; a2 <= 3; ++a2) op_interval_distance(a1, a2, -3, 3);
     vj::close();
     return 0;
   }
@@ -414,6 +458,11 @@ int main(int argc, char **argv)
     for (auto const &l : lines)
     {
       auto const v = vj::parse(l);
+      if (v->str("f") == "interval_distance")
+      {
+        op_interval_distance(v->num("a1"), v->num("a2"), v->num("lo"), v->num("hi"));
+        continue;
+      }
       if (v->str("T") == "i32") replay_t<int>(*v);
       else replay_t<unsigned>(*v);
     }
